@@ -1487,7 +1487,37 @@ func (x *Exec) exitNormal(p *Path, results []SV, in ssa.Instruction) {
 			x.oblig(p, "panics_iff/complete", "(not "+s+")", ct.PanicsIff.Props, x.pos(in))
 		}
 	}
-	for _, en := range append(append([]*Clause(nil), ct.Ensures...), ct.Returns...) {
+	var extra []*Clause
+	if len(ct.Each)+len(ct.Others) > 0 && len(fn.Params) > 0 {
+		first := fn.Params[0].Name()
+		extra = append(extra, ct.Each...)
+		for _, oc := range ct.Others {
+			// for every other key the clause holds
+			extra = append(extra, &Clause{Label: oc.C.Label, Props: oc.C.Props, E: &EQuant{Forall: true, Vars: []QVar{oc.Var},
+				Body: &EBin{"==>", &EBin{"!=", &EIdent{oc.Var.Name}, &EIdent{first}}, oc.C.E}}})
+		}
+		// stability: what an earlier invocation established for another key survives this invocation
+		for _, ec := range ct.Each {
+			var qv []QVar
+			ren := map[string]string{}
+			for _, prm := range fn.Params {
+				nm := "st_" + prm.Name()
+				ty := map[Sort]string{SInt: "int", SBool: "bool", SStr: "str", SF64: "f64", SVal: "val"}[sortOf(prm.Type())]
+				qv = append(qv, QVar{nm, ty})
+				ren[prm.Name()] = nm
+			}
+			body := renameIdents(ec.E, ren)
+			extra = append(extra, &Clause{Label: ec.Label + "-stable", Props: ec.Props, E: &EQuant{Forall: true, Vars: qv,
+				Body: &EBin{"==>", &EBin{"&&", &EBin{"!=", &EIdent{ren[first]}, &EIdent{first}}, &EOld{body}}, body}}})
+		}
+		// the closure's own preconditions that do not depend on the arguments are preserved
+		for _, rq := range ct.Requires {
+			if !mentionsAny(rq.E, fn.Params) {
+				extra = append(extra, &Clause{Label: rq.Label + "-preserved", Props: rq.Props, E: rq.E})
+			}
+		}
+	}
+	for _, en := range append(append(append([]*Clause(nil), ct.Ensures...), ct.Returns...), extra...) {
 		s, err := env.evalBool(en.E)
 		if err != nil {
 			x.errorf("%s: ensures %s: %v", ct.Func, en.Label, err)
@@ -1690,4 +1720,102 @@ func (x *Exec) seedFrame(p *Path, fs *frameSet, base, hb string) {
 			p.assume(fmt.Sprintf("(=> (and %s) (= (select (Mem %s) %s) (select (Mem %s) %s)))", strings.Join(conds, " "), hb, arr, base, arr))
 		}
 	}
+}
+
+// renameIdents returns a copy of e with identifiers renamed.
+func renameIdents(e Expr, ren map[string]string) Expr {
+	switch n := e.(type) {
+	case *EIdent:
+		if r, ok := ren[n.Name]; ok {
+			return &EIdent{r}
+		}
+		return n
+	case *EBin:
+		return &EBin{n.Op, renameIdents(n.L, ren), renameIdents(n.R, ren)}
+	case *EUn:
+		return &EUn{n.Op, renameIdents(n.X, ren)}
+	case *ECall:
+		var as []Expr
+		for _, a := range n.Args {
+			as = append(as, renameIdents(a, ren))
+		}
+		return &ECall{n.Fn, as}
+	case *ESel:
+		return &ESel{renameIdents(n.X, ren), n.Field}
+	case *EIndex:
+		return &EIndex{renameIdents(n.X, ren), renameIdents(n.I, ren)}
+	case *ESlice:
+		var lo, hi Expr
+		if n.Lo != nil {
+			lo = renameIdents(n.Lo, ren)
+		}
+		if n.Hi != nil {
+			hi = renameIdents(n.Hi, ren)
+		}
+		return &ESlice{renameIdents(n.X, ren), lo, hi}
+	case *EQuant:
+		var tr [][]Expr
+		for _, t := range n.Trig {
+			var ts []Expr
+			for _, te := range t {
+				ts = append(ts, renameIdents(te, ren))
+			}
+			tr = append(tr, ts)
+		}
+		return &EQuant{n.Forall, n.Vars, tr, renameIdents(n.Body, ren)}
+	case *EOld:
+		return &EOld{renameIdents(n.X, ren)}
+	case *ECond:
+		return &ECond{renameIdents(n.C, ren), renameIdents(n.A, ren), renameIdents(n.B, ren)}
+	}
+	return e
+}
+
+func mentionsAny(e Expr, params []*ssa.Parameter) bool {
+	names := map[string]bool{}
+	for _, p := range params {
+		names[p.Name()] = true
+	}
+	found := false
+	var walk func(Expr)
+	walk = func(e Expr) {
+		switch n := e.(type) {
+		case *EIdent:
+			if names[n.Name] {
+				found = true
+			}
+		case *EBin:
+			walk(n.L)
+			walk(n.R)
+		case *EUn:
+			walk(n.X)
+		case *ECall:
+			for _, a := range n.Args {
+				walk(a)
+			}
+		case *ESel:
+			walk(n.X)
+		case *EIndex:
+			walk(n.X)
+			walk(n.I)
+		case *ESlice:
+			walk(n.X)
+			if n.Lo != nil {
+				walk(n.Lo)
+			}
+			if n.Hi != nil {
+				walk(n.Hi)
+			}
+		case *EQuant:
+			walk(n.Body)
+		case *EOld:
+			walk(n.X)
+		case *ECond:
+			walk(n.C)
+			walk(n.A)
+			walk(n.B)
+		}
+	}
+	walk(e)
+	return found
 }
